@@ -5,7 +5,7 @@ from .. import alg, fitmodel as fm
 from ..alg import Poly, P, B, C, sym, sum_over, lt, mk_fn
 from ..interp import Interp, Hooks, Arr, Obj, Unk, symarr, scalar, num, decide_with, count_atom
 from ..fitmodel import W, loc, compare
-from ..rules import getstate_keys
+from ..rules import getstate_keys, state_keys
 from ..astutil import up
 from ..loader import AnalysisError
 
@@ -157,7 +157,7 @@ def run(ctx):
     repo = ctx.repo
     keep = ctx.fn(repo.func('fit_info', 'FitInfo.keep'))
     ctx.fn(repo.func('source.source', 'Source.n_data@getter'))
-    keys = getstate_keys(repo.func('fit_info', 'FitInfo.__getstate__'))
+    keys = state_keys(repo, repo.cls('fit_info', 'FitInfo'))
     if not keys:
         raise AnalysisError('FitInfo.__getstate__ keys not found')
     per_fit = [k for k in keys if k != 'source']
